@@ -1,1 +1,255 @@
-(* placeholder *)
+(* Proofs for C20: a schedule entry consumed as a failure makes the statement return an error, for every schedule,
+   store and statement.  Method: every executor extends the call log, and its success flag is false whenever one of
+   the entries it appended is a failure entry. *)
+From Coq Require Import List Bool NArith ZArith Arith Lia.
+From Coq.Strings Require Import Byte.
+From BWExec Require Import Base Values Store Driver Exec Fault Spec BaseProofs StoreProofs ExecProofs.
+Import ListNotations.
+
+Definition failing (sch : schedule) (l : log) : bool := existsb (fun id => is_fail (sch id)) l.
+
+Lemma failing_app : forall sch a b, failing sch (a ++ b) = failing sch a || failing sch b.
+Proof. intros. unfold failing. apply existsb_app. Qed.
+
+(* d' extends the log of d by `new`; if some new entry is a failure entry then ok is false *)
+Definition sound (sch : schedule) (d d' : dst) (ok : bool) : Prop :=
+  exists new, d_log d' = d_log d ++ new /\ (failing sch new = true -> ok = false).
+
+Lemma sound_refl : forall sch d ok, sound sch d d ok.
+Proof. intros. exists []. split; [rewrite app_nil_r; reflexivity | cbn; discriminate]. Qed.
+
+Lemma sound_trans : forall sch d d1 d2 ok1 ok2, sound sch d d1 ok1 -> sound sch d1 d2 ok2 -> sound sch d d2 (ok1 && ok2).
+Proof.
+  intros sch d d1 d2 ok1 ok2 [n1 [L1 F1]] [n2 [L2 F2]]. exists (n1 ++ n2). split; [rewrite L2, L1, app_assoc; reflexivity|].
+  rewrite failing_app. intro H. apply orb_true_iff in H. destruct H as [H|H]; [rewrite (F1 H) | rewrite (F2 H), andb_false_r]; reflexivity.
+Qed.
+
+Lemma sound_weaken : forall sch d d' ok, sound sch d d' ok -> sound sch d d' false.
+Proof. intros sch d d' ok [n [L _]]. exists n. split; [exact L | reflexivity]. Qed.
+
+Lemma failing_one : forall sch id, failing sch [id] = is_fail (sch id).
+Proof. intros. unfold failing. cbn. apply orb_false_r. Qed.
+
+Lemma d_graph_sound : forall sch d n ok d', d_graph sch d n = (ok, d') -> sound sch d d' ok.
+Proof.
+  intros sch d n ok d' H. unfold d_graph in H. inversion H; subst. eexists. split; [reflexivity|]. cbn [d_log].
+  rewrite failing_one. intro F. rewrite F. reflexivity.
+Qed.
+
+Lemma d_read_sound : forall sch d n ok d', d_read sch d n = (ok, d') -> sound sch d d' ok.
+Proof.
+  intros sch d n ok d' H. unfold d_read in H. inversion H; subst. eexists. split; [reflexivity|]. cbn [d_log].
+  rewrite failing_one. intro F. rewrite F. reflexivity.
+Qed.
+
+Lemma d_new_graph_sound : forall sch d n ok d', d_new_graph sch d n = (ok, d') -> sound sch d d' ok.
+Proof.
+  intros sch d n ok d' H. unfold d_new_graph in H. destruct (is_fail (sch (next_id (d_log d) KNewGraph n))) eqn:F.
+  - inversion H; subst. eexists. split; [reflexivity | reflexivity].
+  - destruct (new_graph (d_store d) n); inversion H; subst; eexists; (split; [reflexivity|]); cbn [d_log];
+      rewrite failing_one, F; discriminate.
+Qed.
+
+Lemma d_delete_graph_sound : forall sch d n ok d', d_delete_graph sch d n = (ok, d') -> sound sch d d' ok.
+Proof.
+  intros sch d n ok d' H. unfold d_delete_graph in H. destruct (is_fail (sch (next_id (d_log d) KDeleteGraph n))) eqn:F.
+  - inversion H; subst. eexists. split; [reflexivity | reflexivity].
+  - destruct (delete_graph (d_store d) n); inversion H; subst; eexists; (split; [reflexivity|]); cbn [d_log];
+      rewrite failing_one, F; discriminate.
+Qed.
+
+Lemma d_write_sound : forall add sch d n ts ok d', d_write add sch d n ts = (ok, d') -> sound sch d d' ok.
+Proof.
+  intros add sch d n ts ok d' H. unfold d_write in H.
+  destruct (sch (next_id (d_log d) (if add then KAdd else KRemove) n)) eqn:F; inversion H; subst;
+    eexists; (split; [reflexivity|]); cbn [d_log]; rewrite failing_one, F; cbn; try reflexivity; discriminate.
+Qed.
+
+Lemma d_graph_names_sound : forall sch d ns ok d', d_graph_names sch d = (ns, ok, d') -> sound sch d d' ok.
+Proof.
+  intros sch d ns ok d' H. unfold d_graph_names in H.
+  destruct (sch (next_id (d_log d) KGraphNames [])) eqn:F; inversion H; subst;
+    eexists; (split; [reflexivity|]); cbn [d_log]; rewrite failing_one, F; cbn; try reflexivity; discriminate.
+Qed.
+
+Lemma x_update_sound : forall add sch ts gbs d ok d', x_update add sch d ts gbs = (ok, d') -> sound sch d d' ok.
+Proof.
+  intros add sch ts gbs. induction gbs as [|g r IH]; intros d ok d' H; cbn [x_update] in H.
+  - inversion H; subst. apply sound_refl.
+  - destruct (d_graph sch d g) as [okg d1] eqn:E1. apply d_graph_sound in E1.
+    destruct (if okg then d_write add sch d1 g ts else (false, d1)) as [ok1 d2] eqn:E2.
+    destruct (x_update add sch d2 ts r) as [ok2 d3] eqn:E3. inversion H; subst. clear H. apply IH in E3.
+    apply sound_trans with (d1 := d2); [|exact E3].
+    destruct okg.
+    + apply d_write_sound in E2. pose proof (sound_trans _ _ _ _ _ _ E1 E2) as X. cbn in X. exact X.
+    + inversion E2; subst. pose proof (sound_trans _ _ _ _ _ _ E1 (sound_refl sch d2 false)) as X. cbn in X. exact X.
+Qed.
+
+Lemma x_init_sound : forall sch gs d ok d', x_init sch d gs = (ok, d') -> sound sch d d' ok.
+Proof.
+  intros sch gs. induction gs as [|g r IH]; intros d ok d' H; cbn [x_init] in H.
+  - inversion H; subst. apply sound_refl.
+  - destruct (d_graph sch d g) as [okg d1] eqn:E1. apply d_graph_sound in E1. destruct okg.
+    + apply IH in H. pose proof (sound_trans _ _ _ _ _ _ E1 H) as X. cbn in X. exact X.
+    + inversion H; subst. exact E1.
+Qed.
+
+Lemma x_reads_sound : forall sch gs d ok d', x_reads sch d gs = (ok, d') -> sound sch d d' ok.
+Proof.
+  intros sch gs. induction gs as [|g r IH]; intros d ok d' H; cbn [x_reads] in H.
+  - inversion H; subst. apply sound_refl.
+  - destruct (d_read sch d g) as [okg d1] eqn:E1. apply d_read_sound in E1. destruct okg.
+    + apply IH in H. pose proof (sound_trans _ _ _ _ _ _ E1 H) as X. cbn in X. exact X.
+    + inversion H; subst. exact E1.
+Qed.
+
+Lemma x_create_sound : forall sch gs d ok d', x_create sch d gs = (ok, d') -> sound sch d d' ok.
+Proof.
+  intros sch gs. induction gs as [|g r IH]; intros d ok d' H; cbn [x_create] in H.
+  - inversion H; subst. apply sound_refl.
+  - destruct (d_new_graph sch d g) as [ok1 d1] eqn:E1. apply d_new_graph_sound in E1.
+    destruct (x_create sch d1 r) as [ok2 d2] eqn:E2. inversion H; subst. apply IH in E2. eapply sound_trans; eassumption.
+Qed.
+
+Lemma x_drop_sound : forall sch gs d ok d', x_drop sch d gs = (ok, d') -> sound sch d d' ok.
+Proof.
+  intros sch gs. induction gs as [|g r IH]; intros d ok d' H; cbn [x_drop] in H.
+  - inversion H; subst. apply sound_refl.
+  - destruct (d_delete_graph sch d g) as [ok1 d1] eqn:E1. apply d_delete_graph_sound in E1.
+    destruct (x_drop sch d1 r) as [ok2 d2] eqn:E2. inversion H; subst. apply IH in E2. eapply sound_trans; eassumption.
+Qed.
+
+Lemma writer_sound : forall add bulk sch outs sent d pending okacc p' ok' d',
+  writer add bulk sch d outs sent pending okacc = (p', ok', d') -> sound sch d d' ok' /\ (okacc = false -> ok' = false).
+Proof.
+  intros add bulk sch outs sent. induction sent as [|t r IH]; intros d pending okacc p' ok' d' H; cbn [writer] in H.
+  - inversion H; subst. split; [apply sound_refl | auto].
+  - destruct (bulk <=? length (pending ++ [t])).
+    + destruct (x_update add sch d (pending ++ [t]) outs) as [ok d1] eqn:E. apply x_update_sound in E.
+      apply IH in H. destruct H as [S K]. split.
+      * destruct ok.
+        -- pose proof (sound_trans _ _ _ _ _ _ E S) as X. cbn in X. exact X.
+        -- rewrite andb_false_r in K. rewrite (K eq_refl). eapply sound_weaken. eapply sound_trans; eassumption.
+      * intro Z. subst okacc. apply K. reflexivity.
+    + apply IH in H. exact H.
+Qed.
+
+(* the result of a statement is an error whenever an entry appended to the log is a failure entry *)
+Definition rsound (sch : schedule) (d d' : dst) (r : result) : Prop :=
+  exists new, d_log d' = d_log d ++ new /\ (failing sch new = true -> exists e, r = RErr e).
+
+Lemma sound_rsound : forall sch d d' ok (r : result), sound sch d d' ok -> (ok = false -> exists e, r = RErr e) -> rsound sch d d' r.
+Proof. intros sch d d' ok r [n [L F]] H. exists n. split; [exact L | intro X; apply H; apply F; exact X]. Qed.
+
+Lemma x_construct_rsound : forall add bulk sch d tmpl outs ins q draw r d',
+  x_construct add bulk sch d tmpl outs ins q draw = (r, d') -> rsound sch d d' r.
+Proof.
+  intros add bulk sch d tmpl outs ins q draw r d' H. unfold x_construct in H.
+  destruct (x_init sch d (ins ++ outs)) as [ok d1] eqn:E1. apply x_init_sound in E1.
+  destruct ok; cbn [negb] in H; [|inversion H; subst; eapply sound_rsound; [exact E1 | intros _; eexists; reflexivity]].
+  destruct (x_reads sch d1 (q_reads q)) as [okr d2] eqn:E2. apply x_reads_sound in E2.
+  pose proof (sound_trans _ _ _ _ _ _ E1 E2) as S2. cbn [andb] in S2.
+  destruct okr; cbn [negb] in H; [|inversion H; subst; eapply sound_rsound; [exact S2 | intros _; eexists; reflexivity]].
+  destruct (q_ok q); cbn [negb] in H; [|inversion H; subst; eapply sound_rsound; [eapply sound_weaken; exact S2 | intros _; eexists; reflexivity]].
+  destruct (produce _ _ _ _ _) as [sent okp].
+  destruct (writer add bulk sch d2 outs sent [] true) as [[pending okw] d3] eqn:E3. apply writer_sound in E3. destruct E3 as [S3 _].
+  destruct (if is_empty pending then (true, d3) else x_update add sch d3 pending outs) as [okf d4] eqn:E4.
+  assert (S4 : sound sch d3 d4 okf).
+  { destruct (is_empty pending); [inversion E4; subst; apply sound_refl | eapply x_update_sound; exact E4]. }
+  pose proof (sound_trans _ _ _ _ _ _ S2 (sound_trans _ _ _ _ _ _ S3 S4)) as S. cbn [andb] in S.
+  destruct okp; inversion H; subst.
+  - eapply sound_rsound; [exact S|]. intro X. rewrite X. eexists; reflexivity.
+  - eapply sound_rsound; [eapply sound_weaken; exact S | intros _; eexists; reflexivity].
+Qed.
+
+Theorem xexec_rsound : forall bulk sch d s r d', xexec bulk sch d s = (r, d') -> rsound sch d d' r.
+Proof.
+  intros bulk sch d s r d' H. unfold xexec in H.
+  destruct (static_ok s); cbn [negb] in H;
+    [|inversion H; subst; eapply sound_rsound; [apply (sound_refl sch d' false) | intros _; eexists; reflexivity]].
+  destruct s.
+  - destruct (x_create sch d gs) as [ok d1] eqn:E. inversion H; subst. apply x_create_sound in E.
+    eapply sound_rsound; [exact E | intro X; rewrite X; eexists; reflexivity].
+  - destruct (x_drop sch d gs) as [ok d1] eqn:E. inversion H; subst. apply x_drop_sound in E.
+    eapply sound_rsound; [exact E | intro X; rewrite X; eexists; reflexivity].
+  - destruct (x_update true sch d ts outs) as [ok d1] eqn:E. inversion H; subst. apply x_update_sound in E.
+    eapply sound_rsound; [exact E | intro X; rewrite X; eexists; reflexivity].
+  - destruct (x_update false sch d ts ins) as [ok d1] eqn:E. inversion H; subst. apply x_update_sound in E.
+    eapply sound_rsound; [exact E | intro X; rewrite X; eexists; reflexivity].
+  - eapply x_construct_rsound; exact H.
+  - unfold x_select in H. destruct (x_init sch d ins) as [ok d1] eqn:E1. apply x_init_sound in E1.
+    destruct ok; cbn [negb] in H; [|inversion H; subst; eapply sound_rsound; [exact E1 | intros _; eexists; reflexivity]].
+    destruct (x_reads sch d1 (q_reads q)) as [okr d2] eqn:E2. apply x_reads_sound in E2.
+    pose proof (sound_trans _ _ _ _ _ _ E1 E2) as S2. cbn [andb] in S2.
+    destruct okr; cbn [negb] in H; [|inversion H; subst; eapply sound_rsound; [exact S2 | intros _; eexists; reflexivity]].
+    destruct (q_ok q); inversion H; subst.
+    + eapply sound_rsound; [exact S2 | discriminate].
+    + eapply sound_rsound; [eapply sound_weaken; exact S2 | intros _; eexists; reflexivity].
+  - unfold x_show in H. destruct (d_graph_names sch d) as [[ns ok] d1] eqn:E. apply d_graph_names_sound in E.
+    destruct ok; inversion H; subst.
+    + eapply sound_rsound; [exact E | discriminate].
+    + eapply sound_rsound; [exact E | intros _; eexists; reflexivity].
+  - inversion H; subst. eapply sound_rsound; [apply (sound_refl sch d' false) | intros _; eexists; reflexivity].
+Qed.
+
+Lemma consumed_failure_failing : forall sch lg, consumed_failure sch lg <-> failing sch lg = true.
+Proof.
+  intros sch lg. unfold consumed_failure, failing. rewrite existsb_exists. split; intros [id [Hin Hf]]; exists id; (split; [exact Hin|]).
+  - destruct (sch id); [congruence | reflexivity | reflexivity | reflexivity].
+  - intro E. rewrite E in Hf. discriminate.
+Qed.
+
+Theorem fexec_error_surfaces : forall bulk sch st s,
+  consumed_failure sch (d_log (snd (fexec bulk sch st s))) -> exists e, fst (fexec bulk sch st s) = RErr e.
+Proof.
+  intros bulk sch st s H. unfold fexec in *. destruct (xexec bulk sch (mkD st []) s) as [r d'] eqn:E. cbn [fst snd] in *.
+  apply xexec_rsound in E. destruct E as [new [L F]]. cbn [d_log app] in L. rewrite L in H.
+  apply F. apply consumed_failure_failing. exact H.
+Qed.
+
+(* no statement ever returns neither a table nor an error *)
+Theorem fexec_never_nilnil : forall bulk sch st s, fst (fexec bulk sch st s) <> RNilNil.
+Proof.
+  intros bulk sch st s. unfold fexec, xexec. destruct (static_ok s); cbn [negb]; [|discriminate].
+  destruct s.
+  - destruct (x_create sch _ gs) as [[] d]; discriminate.
+  - destruct (x_drop sch _ gs) as [[] d]; discriminate.
+  - destruct (x_update true sch _ ts outs) as [[] d]; discriminate.
+  - destruct (x_update false sch _ ts ins) as [[] d]; discriminate.
+  - unfold x_construct. destruct (x_init _ _ _) as [[] d1]; cbn [negb]; [|discriminate].
+    destruct (x_reads _ _ _) as [[] d2]; cbn [negb]; [|discriminate].
+    destruct (q_ok q); cbn [negb]; [|discriminate].
+    destruct (produce _ _ _ _ _) as [sent okp]. destruct (writer _ _ _ _ _ _ _ _) as [[p okw] d3].
+    destruct (if is_empty p then _ else _) as [okf d4]. destruct okp; [destruct (okw && okf)|]; discriminate.
+  - unfold x_select. destruct (x_init _ _ _) as [[] d1]; cbn [negb]; [|discriminate].
+    destruct (x_reads _ _ _) as [[] d2]; cbn [negb]; [|discriminate]. destruct (q_ok q); discriminate.
+  - unfold x_show. destruct (d_graph_names sch _) as [[ns []] d]; discriminate.
+  - discriminate.
+Qed.
+
+(* a failure met before the write phase (Statement.Init, the lookups, the query engine) leaves the store untouched *)
+Theorem fexec_early_failure_no_write : forall bulk sch st s e,
+  fst (fexec bulk sch st s) = RErr e -> (e = EInit \/ e = EDriver \/ e = EQuery \/ e = EStatic) ->
+  d_store (snd (fexec bulk sch st s)) = st.
+Proof.
+  intros bulk sch st s e H He. unfold fexec, xexec in *. destruct (static_ok s); cbn [negb] in *; [|reflexivity].
+  destruct s.
+  - destruct (x_create sch _ gs) as [[] d]; cbn in H; [discriminate | inversion H; subst; destruct He as [X|[X|[X|X]]]; discriminate].
+  - destruct (x_drop sch _ gs) as [[] d]; cbn in H; [discriminate | inversion H; subst; destruct He as [X|[X|[X|X]]]; discriminate].
+  - destruct (x_update true sch _ ts outs) as [[] d]; cbn in H; [discriminate | inversion H; subst; destruct He as [X|[X|[X|X]]]; discriminate].
+  - destruct (x_update false sch _ ts ins) as [[] d]; cbn in H; [discriminate | inversion H; subst; destruct He as [X|[X|[X|X]]]; discriminate].
+  - unfold x_construct in *. destruct (x_init sch _ _) as [ok d1] eqn:E1. apply x_init_store in E1. cbn [d_store] in E1.
+    destruct ok; cbn [negb] in *; [|exact E1].
+    destruct (x_reads sch d1 _) as [okr d2] eqn:E2. apply x_reads_store in E2.
+    destruct okr; cbn [negb] in *; [|cbn; congruence].
+    destruct (q_ok q); cbn [negb] in *; [|cbn; congruence].
+    destruct (produce _ _ _ _ _) as [sent okp]. destruct (writer _ _ _ _ _ _ _ _) as [[p okw] d3].
+    destruct (if is_empty p then _ else _) as [okf d4]. cbn in H.
+    destruct okp; [destruct (okw && okf); [discriminate|]|]; inversion H; subst; destruct He as [X|[X|[X|X]]]; discriminate.
+  - unfold x_select in *. destruct (x_init sch _ _) as [ok d1] eqn:E1. apply x_init_store in E1. cbn [d_store] in E1.
+    destruct ok; cbn [negb] in *; [|exact E1].
+    destruct (x_reads sch d1 _) as [okr d2] eqn:E2. apply x_reads_store in E2.
+    destruct okr; cbn [negb] in *; [|cbn; congruence]. destruct (q_ok q); cbn; congruence.
+  - unfold x_show, d_graph_names. destruct (sch _); reflexivity.
+  - reflexivity.
+Qed.
